@@ -104,8 +104,9 @@ func nilWays(t *Target) []nilCase {
 	return ws
 }
 
-func nilPass(b *tbuf, t *Target) {
+func nilPass(b *tbuf, t *Target, gt *getterTable) {
 	S := t.S
+	nilRootGetters(b, t, gt)
 	for _, w := range nilWays(t) {
 		w := w
 		viol := func(what, desc string) {
@@ -185,6 +186,21 @@ func nilPass(b *tbuf, t *Target) {
 				}
 				return ""
 			})
+			// C19: the generated plain-Go getter on the nil receiver returns what Get returns (the default)
+			if w.mi < len(gt.names) && gt.names[w.mi][j] != "" {
+				b.Count("nil_getter_checks")
+				mg := newMach("fast", S, nm)
+				mg.getters = gt.names
+				var got, pmsg string
+				// the op is addressed to nm itself: message index w.mi, no path
+				if p, pm := guard(func() { got = mg.callGetter(nm, w.mi, j, f) }); p {
+					got, pmsg = "panic", pm
+				}
+				if want, wantNil := getterTokens(fmtField(f, nm.Get(fd))), getterTokens(fmtField(f, refNil.Get(fd))); got != want || got != wantNil {
+					b.Violate("C19", "getter-nil", fmt.Sprintf("%s() on a nil message [%s, message %s] returned %s (%s); Get(fd) of the same message gives %s, of the read-only reference %s",
+						gt.names[w.mi][j], w.what, S.Msgs[w.mi].FullName, got, pmsg, want, wantNil), "# nil-pass type "+t.Full+" way "+w.what)
+				}
+			}
 			switch f.Shape {
 			case vschema.Repeated:
 				check("List-view", func() string {
@@ -329,12 +345,12 @@ func nilPass(b *tbuf, t *Target) {
 		silent("SetUnknown", func() { nm.SetUnknown(protoreflect.RawFields{0x98, 0x3f, 0x01}) })
 		silent("SetUnknown-empty", func() { nm.SetUnknown(nil) })
 	}
-	nilContainers(b, t)
+	nilContainers(b, t, gt)
 }
 
 // nilContainers: messages HOLDING a nil list element / nil map value / wrapper with nil message are read and
 // run through the library; they must behave like the same message with an empty message in that place.
-func nilContainers(b *tbuf, t *Target) {
+func nilContainers(b *tbuf, t *Target, gt *getterTable) {
 	S := t.S
 	sm := &S.Msgs[0]
 	for pass := 0; pass < 2; pass++ {
@@ -381,6 +397,9 @@ func nilContainers(b *tbuf, t *Target) {
 			}
 			mj := t.B.ToMessage(0, junk)
 			mc := t.B.ToMessage(0, clean)
+			if pass == 1 && gt.names[0][j] != "" {
+				typedNilWrapperGetter(b, t, gt, j, junk, mj)
+			}
 			dyn := dynamicpb.NewMessage(t.Desc)
 			cb, err := proto.MarshalOptions{Deterministic: true}.Marshal(mc)
 			if err != nil || proto.Unmarshal(cb, dyn) != nil {
@@ -467,5 +486,62 @@ func nilContainers(b *tbuf, t *Target) {
 				return ""
 			})
 		}
+	}
+}
+
+// nilRootGetters: every generated getter of the root type called on the typed-nil root (*T)(nil), as ONE model
+// history from the nil state `_` (refl: the generated code; rrefl: Get(fd) of dynamicpb's read-only zero message).
+func nilRootGetters(b *tbuf, t *Target, gt *getterTable) {
+	S := t.S
+	if !S.Supported || len(S.Msgs[0].Fields) == 0 {
+		return
+	}
+	ma := newMach("fast", S, t.Info.Proto.ProtoReflect())
+	ma.getters = gt.names
+	mb := newMach("dyn", S, dynamicpb.NewMessageType(t.Desc).Zero())
+	var ops, outsA, outsB []string
+	for j := range S.Msgs[0].Fields {
+		if gt.names[0][j] == "" {
+			continue
+		}
+		op := &rop{name: "getter", j: j}
+		oa, _ := ma.exec(op)
+		ob, _ := mb.exec(op)
+		ops, outsA, outsB = append(ops, op.String()), append(outsA, oa), append(outsB, ob)
+		b.Count("ops:getter_nil_root")
+	}
+	if len(ops) == 0 {
+		return
+	}
+	body := S.ID + " 0 " + fmt.Sprint(len(ops)) + " " + strings.Join(ops, " ; ") + " ; _"
+	b.Line("C09,C19", "refl "+body, strings.Join(outsA, " ; ")+" ; final _")
+	b.Line("B", "rrefl "+body, strings.Join(outsB, " ; ")+" ; final _")
+}
+
+// typedNilWrapperGetter: the one state on which a generated getter and Get(fd) differ BY CONSTRUCTION of
+// protoc-gen-go's getter template: the oneof interface holds a typed-nil wrapper (*T_M)(nil). `x.GetOneof().(*T_M)`
+// succeeds with a nil pointer and `x.M` dereferences it, while Get/Has treat the state as unset. No reflection op,
+// decoder or constructor produces this state (it is outside the junk-free domain of C08), so it is recorded as a
+// statistic and as a model line (the model panics as well), not as a violation.
+func typedNilWrapperGetter(b *tbuf, t *Target, gt *getterTable, j int, junk *vval.Val, mj proto.Message) {
+	S := t.S
+	ma := newMach("fast", S, mj.ProtoReflect())
+	ma.getters = gt.names
+	hist := []*rop{{name: "getter", j: j}, {name: "get", j: j}, {name: "has", j: j}}
+	// the sibling members' getters are unaffected (their type assertion fails)
+	for k, f := range S.Msgs[0].Fields {
+		if k != j && f.Shape == vschema.Oneof && f.Group == S.Msgs[0].Fields[j].Group && gt.names[0][k] != "" {
+			hist = append(hist, &rop{name: "getter", j: k})
+		}
+	}
+	var ops, outs []string
+	for _, op := range hist {
+		o, _ := ma.exec(op)
+		ops, outs = append(ops, op.String()), append(outs, o)
+	}
+	b.Count("getter_on_typed_nil_wrapper:getter=" + outs[0] + ",get=" + clip(outs[1], 8) + ",has=" + outs[2])
+	if S.Supported {
+		final := vval.Canon(S, 0, t.B.FromMessage(0, mj)).String()
+		b.Line("C19", "refl "+S.ID+" 0 "+fmt.Sprint(len(ops))+" "+strings.Join(ops, " ; ")+" ; "+junk.String(), strings.Join(outs, " ; ")+" ; final "+final)
 	}
 }
